@@ -123,14 +123,16 @@ def inline_local_functions(fn):
     return ast.fix_missing_locations(fn)
 
 
-def find_func(tree, cls, name):
+def find_func(tree, cls, name, inline=True):
     for node in tree.body:
         if cls is None and isinstance(node, ast.FunctionDef) and node.name == name:
-            return inline_local_functions(ast.fix_missing_locations(Normalise().visit(copy.deepcopy(node))))
+            n_ = ast.fix_missing_locations(Normalise().visit(copy.deepcopy(node)))
+            return inline_local_functions(n_) if inline else n_
         if isinstance(node, ast.ClassDef) and node.name == cls:
             for sub in node.body:
                 if isinstance(sub, ast.FunctionDef) and sub.name == name:
-                    return inline_local_functions(ast.fix_missing_locations(Normalise().visit(copy.deepcopy(sub))))
+                    n_ = ast.fix_missing_locations(Normalise().visit(copy.deepcopy(sub)))
+                    return inline_local_functions(n_) if inline else n_
     return None
 
 
@@ -1133,6 +1135,45 @@ class TrOrient(Tr):
         return super().stmt0(s, ind)
 
 
+class TrRegexFilter(Tr):
+    """`make_key_regex_filter` with its inner function: a compiled alternation `re.compile('|'.join(['(?:' + r + ')' for r in L]))`
+    is the list `L` of its patterns, `X.search(key)` is `reSearch mtch X key` (some pattern of the alternation matches somewhere
+    in the key — and the empty alternation, the pattern `''`, matches every key), `mtch` being the matching relation of single
+    patterns; `a and not (b and c)` on match objects / None is the Boolean it is tested as"""
+
+    def e(self, n):
+        src = self.src(n)
+        m_ = re.match(r"re\.compile\('\|'\.join\(\['\(\?:' \+ regex \+ '\)' for regex in (\w+)\]\)\)$", src)
+        if m_:
+            return m_.group(1)
+        if isinstance(n, ast.Call) and isinstance(n.func, ast.Attribute) and n.func.attr == 'search' and len(n.args) == 1 \
+                and isinstance(n.func.value, ast.Name):
+            x = n.func.value.id
+            if x in self.opt_locals:
+                return '(match %s with | some r_ => reSearch mtch r_ %s | none => false)' % (x, self.atom(n.args[0]))
+            return '(reSearch mtch %s %s)' % (x, self.atom(n.args[0]))
+        return super().e(n)
+
+    def b(self, n):
+        if isinstance(n, ast.BoolOp) and isinstance(n.op, ast.And):
+            vals, i_, parts = n.values, 0, []
+            while i_ < len(vals):
+                v_ = vals[i_]
+                if isinstance(v_, ast.Name) and v_.id in self.opt_locals and i_ + 1 < len(vals) and isinstance(vals[i_ + 1], ast.Call) \
+                        and self.src(vals[i_ + 1].func) == v_.id + '.search':
+                    parts.append(self.e(vals[i_ + 1]))     # `x and x.search(k)`: None is false
+                    i_ += 2
+                else:
+                    parts.append(self.b(v_))
+                    i_ += 1
+            return parts[0] if len(parts) == 1 else '(' + ' && '.join(parts) + ')'
+        if isinstance(n, ast.Call):
+            return self.e(n)
+        if isinstance(n, ast.Name) and n.id in getattr(self, 'list_vars', ()):
+            return '(!(%s).isEmpty)' % n.id       # truth value of a list
+        return super().b(n)
+
+
 class TrChkOrder(Tr):
     """the thorough check of `_chk_order`: `_files_info[i][1]` is the sorting tuple (vector, time, position)"""
     PROJ = {0: '.1', 1: '.2.1', 2: '.2.2'}
@@ -1285,6 +1326,11 @@ def pyDelWhileIter {β : Type} (p : β → Bool) : List β → List β
       | nxt :: rest' => nxt :: pyDelWhileIter p rest'
     else a :: pyDelWhileIter p rest
 
+/-- `re.compile('|'.join('(?:' + r + ')' for r in L)).search(key)`: some alternative matches somewhere in the key; the empty
+    alternation is the pattern `''`, which matches every key -/
+def reSearch {ρ κ : Type} (mtch : ρ → κ → Bool) (L : List ρ) (key : κ) : Bool :=
+  if L.isEmpty then true else L.any fun r => mtch r key
+
 /-- `a // b` of naturals: `ZeroDivisionError` for a zero divisor -/
 def pyFloorDiv (a b : Nat) : Except PyErr Nat := if b == 0 then .error PyErr.zeroDivision else .ok (a / b)
 
@@ -1310,6 +1356,7 @@ GROUP_OF = {
     'copy_slice_dest': 'values', 'copy_slice_vals': 'values', 'get_changed_class': 'values',
     'copy_slice': 'subset', 'copy_sample': 'subset', 'get_subset_key': 'subset',
     'reclassify': 'insert', 'insert_dispatch': 'insert', 'change_class': 'insert', 'insert_slice': 'insert', 'insert_non_slice': 'insert', 'insert_sample': 'insert',
+    'key_regex_filter': 'filter',
     'check_voxel_order': 'orient',
     'parse_phoenix_line': 'phoenix',
     'header_slice_times': 'header', 'header_dim_info': 'header',
@@ -1334,6 +1381,7 @@ GROUP_IMPORTS = {
     'header': ['DcmVerif.Generated.PyPrelude'],
     'phoenix': ['DcmVerif.Generated.PyPrelude', 'DcmVerif.Model.Phoenix'],
     'orient': ['DcmVerif.Generated.PyPrelude', 'DcmVerif.Model.Orient'],
+    'filter': ['DcmVerif.Generated.PyPrelude'],
 }
 GEN_DIR = os.environ.get('GEN_CODE_DIR', os.path.normpath(os.path.join(HERE, '..', 'lean', 'DcmVerif', 'Generated')))
 
@@ -2042,6 +2090,34 @@ def translate():
              'the checks `reorder_voxels` applies to its `voxel_order` argument (dcmstack.py): upper-cased, three characters, each one '
              'of L R A P S I, and every anatomical axis named (the axes list is edited while it is iterated over)',
              prologue=['let mut voxel_order := voxel_order0'])
+    # ---- make_key_regex_filter with its inner function (group `filter`)
+    f = find_func(ds, None, 'make_key_regex_filter', inline=False)
+    inner = None
+    if f is not None:
+        inner = next((st for st in f.body if isinstance(st, ast.FunctionDef) and st.name == 'key_regex_filter'), None)
+    if f is None or inner is None or not (isinstance(f.body[-1], ast.Return) and ast.unparse(f.body[-1].value) == 'key_regex_filter'):
+        missing.append('key_regex_filter: make_key_regex_filter / its inner function not found')
+    else:
+        outer = [st for st in f.body if st is not inner and not (isinstance(st, ast.Return))]
+        tr = TrRegexFilter({}, {})
+        tr.opt_locals = {'include_re', 'exclude_re'}
+        tr.list_vars = {'force_include_res', 'exclude_res'}
+        tr.stmt_map = {'include_re = None': ['let mut include_re : Option (List ρ) := none'],
+                       'exclude_re = None': ['let mut exclude_re : Option (List ρ) := none']}
+        tr.stmt_map_declares = {'include_re = None': ['include_re'], 'exclude_re = None': ['exclude_re']}
+
+        class SomeWrap(ast.NodeTransformer):
+            def visit_Assign(self, node):
+                if ast.unparse(node.targets[0]) in ('include_re', 'exclude_re') and not (isinstance(node.value, ast.Constant) and node.value.value is None):
+                    return ast.copy_location(ast.Assign(targets=node.targets, value=ast.Call(func=ast.Name(id='SOME_', ctx=ast.Load()),
+                                                                                              args=[node.value], keywords=[])), node)
+                return node
+        tr.attrs['SOME_(_0)'] = '(some {0})'
+        body = [ast.fix_missing_locations(SomeWrap().visit(copy.deepcopy(st))) for st in outer] + list(inner.body)
+        emit('key_regex_filter', '{ρ κ : Type} (mtch : ρ → κ → Bool) (exclude_res force_include_res : List ρ) (key : κ) : Except PyErr Bool',
+             body, tr,
+             'the filter `make_key_regex_filter(exclude_res, force_include_res)` returns (dcmstack.py), applied to a key: the body of '
+             'the maker followed by the body of its inner function `key_regex_filter`')
     # ---- check_valid
     f = find_func(dm, 'DcmMetaExtension', 'check_valid')
     if f is None:
